@@ -131,7 +131,7 @@ def dwt_cases(ck, n, ops, modes=None, Lmax=None, Nmax=None):
         w0 = gen.int_filter(rng, L); w1 = gen.int_filter(rng, L)
         L2 = rng.randint(2, 8)
         r0 = gen.int_filter(rng, L2); r1 = gen.int_filter(rng, L2)
-        nb, c = rng.choice([(1, 1), (1, 1), (2, 1), (1, 2), (2, 3)])
+        nb, c = gen.batch_channels(rng)
         N = gen.pick_len(rng, L, Nmax)
         H = gen.pick_len(rng, L, Smax); W = gen.pick_len(rng, L2, Smax)
         J = rng.randint(1, 3 if q else 4)
@@ -185,7 +185,7 @@ def dwt_cases(ck, n, ops, modes=None, Lmax=None, Nmax=None):
             elif op == 'sfb2d':
                 yield rt.Case('Z', 'sfb2d', [m], [w0, w1, r0, r1, lo, hi[:, :, 0], hi[:, :, 1], hi[:, :, 2]], t2)
             elif op == 'sfb2d_nonsep':
-                yield rt.Case('Z', 'sfb2d_nonsep', [m], [w0, w1, r0, r1, np.concatenate([lo[:, :, None], hi], axis=2)], t2)
+                yield rt.Case('Z', 'sfb2d_nonsep', [m, rng.randint(0, 1)], [w0, w1, r0, r1, np.concatenate([lo[:, :, None], hi], axis=2)], t2)
             else:
                 SH = synlen(m, kh, L); SW = synlen(m, kw, L2)
                 if SH >= 1 and SW >= 1:
@@ -206,7 +206,7 @@ def dwt_cases(ck, n, ops, modes=None, Lmax=None, Nmax=None):
             if op == 'afb2d':
                 yield rt.Case('Z', 'afb2d', [m], [w0, w1, r0, r1, x], tag)
             elif op == 'afb2d_nonsep':
-                yield rt.Case('Z', 'afb2d_nonsep', [m if m != 6 else 0], [w0, w1, r0, r1, x], tag)
+                yield rt.Case('Z', 'afb2d_nonsep', [m if m != 6 else 0, rng.randint(0, 1)], [w0, w1, r0, r1, x], tag)
             elif rng.random() < 0.5:
                 yield rt.Case('Z', 'DWTForward', [m, J, 4], [w0, w1, r0, r1, x], dict(tag, J=J))
             else:
